@@ -24,7 +24,8 @@ from . import C14 as base
 
 LEVEL = "other"
 IMPORTS = [
-    ("C06", ("C06.sync",), "`leaves that line's content and cursor intact and redisplayed below the output` is the terminal/editor synchronisation of Cli::write"),
+    ("C06", ("C06.sync",), "`leaves that line's content and cursor intact and redisplayed below the output` is the terminal/editor synchronisation of Cli::write",
+     ("|cli::Cli::write|", "|cli::Cli::set_prompt|")),
 ]
 LF = 10
 
@@ -77,8 +78,24 @@ class Sanitize(EventRule):
     def extra_interesting(self, fn):
         return False
 
+    def inline_ok(self, I, ci, body):
+        # besides functions that reach the sink: the writer's own event-free helpers (`fn line_end(text) -> Option<usize>`)
+        # and small free helpers of its module - the LF search may live in one of them
+        if EventRule.inline_ok(self, I, ci, body):
+            return True
+        from .common import pure_helper
+        if base.self_adt(body) == 'writer::Writer' and body.kind == 'AssocFn' and len(body.blocks) <= 60:
+            return not any(b['term']['k'] == 'call' and F.norm_path((b['term']['func'] or {}).get('path') or '') == body.npath
+                           for b in body.blocks)
+        return pure_helper(body, 'writer')
+
     def on_call(self, I, w, ci, args):
         p = ci.npath
+        if ci.name in ('index', 'get_unchecked', 'get') and len(args) == 2 and args[0][0] == 'cstr' and LF not in args[0][1] \
+                and not (args[1][0] == 'adt' and all(int_singleton(x) is not None for x in args[1][3] if x[0] == 'int') and
+                         all(x[0] == 'int' for x in args[1][3])):
+            # a piece of an LF-free constant (padding cut from a string of blanks): LF-free whatever its bounds
+            return [(w, ('cstr', b'<part of %s>' % args[0][1][:8]))]
         if p == 'core::slice::<impl [T]>::iter' and args and args[0][0] in ('lf', 'cstr'):
             return [(w, ('adt', '$iter', 0, (args[0],)))]
         if p == 'core::iter::traits::iterator::Iterator::position' and args:
